@@ -88,7 +88,7 @@ def gen_jobs(tier, seed):
     # single signatures: exhaustive over the menu
     for sig in menu:
         w = build([sig], self_=rng.random() < 0.3, bodies=[rng.choice(["leaf", "leaf", "raise"])])
-        jobs.append({"id": f"C03-s{len(jobs)}", "world": w, "shapes": shapes_for(2)})
+        jobs.append({"id": f"C03-s{len(jobs)}", "world": w, "shapes": shapes_for(2), "eqmode": [None, "true", None, "raise"][len(jobs) % 4]})
     # pairs: sampled (quick) / many (thorough)
     npairs = 900 if not thorough else 20000
     for _ in range(npairs):
@@ -96,7 +96,8 @@ def gen_jobs(tier, seed):
         w = build([a, b], self_=rng.random() < 0.3, bodies=[rng.choice(["leaf", "leaf", "raise"]) for _ in range(2)])
         sh = shapes_for(2)
         rng.shuffle(sh)
-        jobs.append({"id": f"C03-p{len(jobs)}", "world": w, "shapes": sh[: (24 if not thorough else 64)]})
+        jobs.append({"id": f"C03-p{len(jobs)}", "world": w, "shapes": sh[: (24 if not thorough else 64)],
+                     "eqmode": [None, None, "true", "raise"][len(jobs) % 4]})
     ntr = 150 if not thorough else 5000
     P3 = pos_seqs(["x", "y", "a"], 3)
     for _ in range(ntr):
@@ -154,7 +155,7 @@ def run(prop, tier, seed, replay=None):
     rep.rule = (
         "signature sets over parameters {x,y,a} (positional-only / positional-or-keyword, required / optional) and keyword-only {k,j}: "
         "every single signature of the menu exhaustively, sampled pairs and triples, functions and methods with self, leaf and raising bodies; "
-        "every call shape (0..max+1 positionals x keyword subsets of size <= 2 over all names) with distinct fresh argument objects. "
+        "every call shape (0..max+1 positionals x keyword subsets of size <= 2 over all names) with distinct fresh argument objects (in half of the worlds objects whose __eq__ is always true or raises). "
         "non-trivial = a body ran on a call that used a keyword or left a parameter to its default; distinct by (signatures, shape)."
     )
     return rep.finish()
